@@ -40,9 +40,14 @@ EmittedParses(r) ==
 FailureReported(r) ==
   \A a \in Modes : ~Ok(r, a) => r.m[a].named = "1" /\ r.m[a].changed = "0"
 
+\* C06 (library): when no mode changed anything, the API hands back the input bytes themselves
+UnmatchedApiIdentity(r) ==
+  ((\A a \in Modes : Ok(r, a) /\ r.m[a].changed = "0") /\ r.useApi = "1") => (r.api.err = "" /\ r.api.same = "1")
+
 Verdict(r) ==
   [id |-> r.id,
    viol |-> SetToSeq((IF ModesAgree(r) THEN {} ELSE {"ModesAgree"})
+                     \cup (IF UnmatchedApiIdentity(r) THEN {} ELSE {"UnmatchedApiIdentity"})
                      \cup (IF EmittedParses(r) THEN {} ELSE {"EmittedParses"})
                      \cup (IF FailureReported(r) THEN {} ELSE {"FailureReported"}))]
 
